@@ -15,7 +15,7 @@ CONSTANTS
   NoWitnessRecheck = FALSE
   NoFpbFilter = FALSE
   Probe = TRUE
-  FeeRecheck = "asis"
+  FeeRecheck = "exact"
   Depth = 12
 INVARIANT Emit
 CHECK_DEADLOCK FALSE
